@@ -347,6 +347,10 @@ RULE = ("event shapes {Event, typed, nested model, Start/Stop/InputRequired/Huma
         "registry, EventEnvelope.parse, persisted ticks: add_event, publish_event, step_result payloads incl. add_collected / "
         "add_waiter, step input) through real JSON text; class, typed fields, dynamic fields, result and exception type + "
         "message compared; non-trivial = events with dynamic fields or results")
+from vmc.tables import _ROUND6 as _R6  # noqa: E402
+
+RULE += _R6["C18"]
+
 
 
 def run(tier: str, seed: int) -> Any:
